@@ -13,7 +13,7 @@
 
    Non-permanent requests only (Permanent requests are created solely by connectNodeMsg, which has
    no sender); GetNewAddress and BanAddress configured (as newServer does); Remove (retry=false) has
-   no caller and is not modelled; addresses are non-empty.  failedAttempts is a uint16 in Go: the
+   no caller in the server but is modelled (event [Remove]); addresses are non-empty.  failedAttempts is a uint16 in Go: the
    increment wraps modulo 65536 here too. *)
 From Coq Require Import ZArith Bool List.
 Import ListNotations.
@@ -32,7 +32,8 @@ Record cst := mkC {
   failed : list (Z * Z);        (* failedAttempts[addr] *)
   gfailed : Z;                  (* globalFailedAttempts *)
   bans : Z;                     (* BanAddress calls *)
-  canceled : Z;                 (* requests whose id was canceled while in flight *)
+  canceled : Z;                 (* slots given up on behalf of a caller of the public API: requests whose id
+                                   was canceled while in flight + connections removed by Remove (retry=false) *)
   dials : Z                     (* Dial calls *)
 }.
 
@@ -96,6 +97,7 @@ Inductive cev :=
 | DialOk (id : Z)
 | DialFail (id : Z)
 | Disconnect (id : Z)
+| Remove (id : Z)               (* cm.Remove: handleDisconnected with retry = false *)
 | TimerFire.
 
 Definition cstep (s : cst) (e : cev) : cst :=
@@ -149,6 +151,15 @@ Definition cstep (s : cst) (e : cev) : cst :=
     | None =>
       if zmem id (pend s) then with_pend s (zrem id (pend s)) else s
     end
+  | Remove id =>
+    match conn_addr (conns s) id with
+    | Some a =>
+      (* connection closed, "we will make no further attempts with this request" *)
+      mkC (tgt s) (maxf s) (next s) (pend s) (conn_del (conns s) id) (tasks s) (timers s) (failed s) (gfailed s)
+          (bans s) (canceled s + 1) (dials s)
+    | None =>
+      if zmem id (pend s) then with_pend s (zrem id (pend s)) else s
+    end
   | TimerFire =>
     if timers s >? 0 then
       spawn (mkC (tgt s) (maxf s) (next s) (pend s) (conns s) (tasks s) (timers s - 1) (failed s) (gfailed s)
@@ -173,7 +184,10 @@ Definition quiescentb (s : cst) : bool := match tasks s with [] => timers s =? 0
 Fixpoint server_alphabet (s : cst) (evs : list cev) : Prop :=
   match evs with
   | [] => True
-  | e :: t => match e with Disconnect id => task_stage (tasks s) id = None | _ => True end
+  | e :: t => match e with
+              | Disconnect id => task_stage (tasks s) id = None
+              | Remove _ => False              (* the server never calls Remove *)
+              | _ => True end
               /\ server_alphabet (cstep s e) t
   end.
 
@@ -181,7 +195,7 @@ Fixpoint server_alphabet (s : cst) (evs : list cev) : Prop :=
    The harness blocks every GetNewAddress / Dial call until the script releases it, hence between
    script events every task sits in WaitAddr or Dialing.  [settle] performs the internal steps the
    real manager performs on its own: armed timers fire, new tasks register. *)
-Inductive sev := SG (a : Z) | SE | SK (a : Z) | SF (a : Z) | SD (k : Z) | SZ | SC.
+Inductive sev := SG (a : Z) | SE | SK (a : Z) | SF (a : Z) | SD (k : Z) | SZ | SC | SR (k : Z).
 
 Fixpoint first_stage (l : list (Z * stage)) (f : stage -> bool) : option Z :=
   match l with [] => None | (i, s) :: t => if f s then Some i else first_stage t f end.
@@ -226,6 +240,12 @@ Definition sstep (x : sst) (e : sev) : sst * bool :=
             | [] => (x, false)
             | _ => match nth_error (conns s) (Z.to_nat (k mod zlen (conns s))) with
                    | Some (id, _) => (mkS (settle (cstep s (Disconnect id))) (Some id), true)
+                   | None => (x, false) end
+            end
+  | SR k => match conns s with
+            | [] => (x, false)
+            | _ => match nth_error (conns s) (Z.to_nat (k mod zlen (conns s))) with
+                   | Some (id, _) => (mkS (settle (cstep s (Remove id))) (Some id), true)
                    | None => (x, false) end
             end
   | SZ => match lastdisc x with
